@@ -3,6 +3,7 @@ package ledgerrun
 import (
 	"fmt"
 	"math/big"
+	"strings"
 
 	"github.com/skycoin/skycoin/src/cipher"
 	"github.com/skycoin/skycoin/src/coin"
@@ -295,8 +296,24 @@ func (h *H) genTxn(m *ledger.Model) *txnPlan {
 			}
 		}
 	}
+	// any class may also be oversized (more bytes than the transaction size limit: a soft rule);
+	// a hard fault stays a hard fault however large the transaction is
+	overP := 3
+	if strings.HasPrefix(class, "hard:") {
+		overP = 15
+	}
+	if class == "hard:out-hours-overflow" {
+		overP = 50
+	}
+	if h.Rng.Intn(100) < overP && class != "hard:dup-output" && outs[0].Coins > 500000 {
+		for i := 0; i < 900; i++ {
+			outs[0].Coins -= uint64(i + 1)
+			outs = append(outs, fix.Out{Addr: h.randAddr(), Coins: uint64(i + 1)})
+		}
+		class += "+oversize"
+	}
 	t := h.Chain.MakeTxn(in, outs)
-	if class == "hard:bad-sig" {
+	if strings.HasPrefix(class, "hard:bad-sig") {
 		switch h.Rng.Intn(3) {
 		case 0:
 			t.Sigs[0][h.Rng.Intn(64)] ^= 1 << uint(h.Rng.Intn(8))
